@@ -480,6 +480,33 @@ theorem inv_doRestart (s : Sys K) : GhostInv (doRestart s).1 := by
 theorem inv_init : GhostInv (Sys.init : Sys K) :=
   ⟨(by simp [Sys.init, Mgr.empty]), (fun i hi => nomatch hi), (fun i hi => nomatch hi)⟩
 
+/-- the loop of `read_cache` registers through `add()`: whatever runs between its phases, the list keeps
+pairwise distinct identities and agrees with the reports -/
+theorem inv_loadRun : ∀ (l : List Transfer) {s : Sys K}, GhostInv s → GhostInv (loadRun s l).1
+  | [], _, h => h
+  | x :: rest, s, h => by
+    unfold loadRun
+    split
+    · exact inv_loadRun rest h
+    · exact inv_doAdd h _ false
+
+theorem inv_doLoadCall (s : Sys K) (order : List Ident) : GhostInv (doLoadCall s order).1 := by
+  unfold doLoadCall
+  simp only
+  split
+  · exact ⟨(by simp [Mgr.empty]), (fun i hi => nomatch hi), (fun i hi => nomatch hi)⟩
+  · exact inv_loadRun _ ⟨(by simp [Mgr.empty]), (fun i hi => nomatch hi), (fun i hi => nomatch hi)⟩
+
+theorem inv_doLoadStep {s : Sys K} (h : GhostInv s) : GhostInv (doLoadStep s).1 := by
+  unfold doLoadStep
+  split
+  · exact h
+  · exact inv_loadRun _ h
+
+theorem inv_doDupKey [DecidableEq K] (H : ByteArray → K) {s : Sys K} (h : GhostInv s) (id : Ident) :
+    GhostInv (doDupKey H s id).1 := by
+  unfold doDupKey; split <;> exact h
+
 theorem inv_step [DecidableEq K] (H : ByteArray → K) {s : Sys K} (h : GhostInv s) (o : Op) : GhostInv (step H s o).1 := by
   cases o with
   | new => exact inv_init
@@ -494,6 +521,10 @@ theorem inv_step [DecidableEq K] (H : ByteArray → K) {s : Sys K} (h : GhostInv
   | legacy id a o k st => exact inv_doLegacy H h id a o k st
   | restart => exact inv_doRestart s
   | sched _ => exact h
+  | prev t k => exact h
+  | dupKey id => exact inv_doDupKey H h id
+  | loadCall order => exact inv_doLoadCall s order
+  | loadStep => exact inv_doLoadStep h
 
 theorem inv_run [DecidableEq K] (H : ByteArray → K) : ∀ (ops : List Op) {s : Sys K}, GhostInv s → GhostInv (run H s ops)
   | [], _, h => h
@@ -502,9 +533,28 @@ theorem inv_run [DecidableEq K] (H : ByteArray → K) : ∀ (ops : List Op) {s :
 theorem run_append [DecidableEq K] (H : ByteArray → K) (s : Sys K) (a b : List Op) : run H s (a ++ b) = run H (run H s a) b := by
   unfold run; rw [List.foldl_append]
 
+theorem doAdd_db (s : Sys K) (t : Transfer) (g : Bool) : (doAdd s t g).1.db = s.db := by
+  simp only [doAdd]; split <;> rfl
+
+theorem loadRun_db : ∀ (l : List Transfer) (s : Sys K), (loadRun s l).1.db = s.db
+  | [], _ => rfl
+  | x :: rest, s => by
+    unfold loadRun
+    split
+    · exact loadRun_db rest s
+    · exact doAdd_db s _ false
+
 theorem quiet_db [DecidableEq K] (H : ByteArray → K) (s : Sys K) (o : Op) (h : o.quiet = true) : (step H s o).1.db = s.db := by
   cases o with
   | new => cases h
+  | prev t k => cases h
+  | dupKey id => cases h
+  | loadCall order => cases h
+  | loadStep =>
+    simp only [step, doLoadStep]
+    split
+    · rfl
+    · exact loadRun_db _ s
   | store => cases h
   | legacy id a o k st => cases h
   | restart => cases h
@@ -543,6 +593,192 @@ theorem quiet_run_db [DecidableEq K] (H : ByteArray → K) : ∀ (ops : List Op)
   | o :: ops, s, h => by
     show (run H (step H s o).1 ops).db = s.db
     rw [quiet_run_db H ops _ (fun x hx => h x (List.mem_cons_of_mem _ hx)), quiet_db H s o (h o List.mem_cons_self)]
+
+end
+
+/-! ### `read_cache()` split at its suspension points, interleaved with other operations -/
+
+theorem restoreAll_complete : ∀ {rs : List Rec} {l : List Transfer}, restoreAll rs = some l →
+    ∀ r ∈ rs, ∃ x ∈ l, restore r = some x
+  | [], _, _, r, hr => nomatch hr
+  | r0 :: rs, l, h, r, hr => by
+    unfold restoreAll at h
+    split at h
+    · rename_i t ts h1 h2
+      cases h
+      rcases List.mem_cons.1 hr with rfl | hr
+      · exact ⟨t, List.mem_cons_self, h1⟩
+      · obtain ⟨x, hx, e⟩ := restoreAll_complete h2 r hr
+        exact ⟨x, List.mem_cons_of_mem _ hx, e⟩
+    · cases h
+
+/-- whatever order the environment picks, the entries are the same -/
+theorem mem_readOrder : ∀ (order : List Ident) (l : List Transfer) (x : Transfer), x ∈ readOrder order l ↔ x ∈ l
+  | [], _, _ => Iff.rfl
+  | id :: rest, l, x => by
+    unfold readOrder
+    rw [List.mem_append, mem_readOrder rest, List.mem_filter, List.mem_filter]
+    by_cases e : ident x = id <;> simp [e]
+
+theorem add_ids_mono (m : Mgr) (t : Transfer) {i : Ident} (hi : i ∈ m.transfers.map ident) :
+    i ∈ (m.add t).transfers.map ident := by
+  by_cases hl : m.transfers.any (fun q => ident q = ident t) = true
+  · rw [add_listed hl]; exact hi
+  · rw [add_not_listed hl, List.map_append, List.mem_append]; exact .inl hi
+
+theorem add_mem_ids (m : Mgr) (t : Transfer) : ident t ∈ (m.add t).transfers.map ident := by
+  by_cases hl : m.transfers.any (fun q => ident q = ident t) = true
+  · rw [add_listed hl]
+    obtain ⟨q, hq, e⟩ := List.any_eq_true.1 hl
+    exact List.mem_map.2 ⟨q, hq, by simpa using e⟩
+  · rw [add_not_listed hl, List.map_append, List.mem_append]
+    right; simp [ident_attach]
+
+theorem addAll_ids_mono : ∀ (l : List Transfer) (m : Mgr) {i : Ident}, i ∈ m.transfers.map ident →
+    i ∈ (m.addAll l).transfers.map ident
+  | [], _, _, h => h
+  | x :: l, m, _, h => addAll_ids_mono l (m.add (repair x).1) (add_ids_mono m _ h)
+
+/-- **nothing in the cache is skipped**: every entry's identity is listed after the loop -/
+theorem addAll_complete : ∀ (l : List Transfer) (m : Mgr) (x : Transfer), x ∈ l →
+    ident x ∈ (m.addAll l).transfers.map ident
+  | y :: l, m, x, hx => by
+    show ident x ∈ (Mgr.addAll (m.add (repair y).1) l).transfers.map ident
+    rcases List.mem_cons.1 hx with rfl | hx
+    · exact addAll_ids_mono l _ (ident_repair x ▸ add_mem_ids m (repair x).1)
+    · exact addAll_complete l _ x hx
+
+section
+variable {K : Type}
+
+theorem listed_mem {s : Sys K} {i : Ident} (h : s.listed i = true) : i ∈ s.mgr.transfers.map ident := by
+  obtain ⟨q, hq, e⟩ := List.any_eq_true.1 h
+  exact List.mem_map.2 ⟨q, hq, by simpa using e⟩
+
+theorem doAdd_mgr (s : Sys K) (t : Transfer) (g : Bool) :
+    (doAdd s t g).1.mgr = s.mgr ∨ (doAdd s t g).1.mgr = s.mgr.add t := by
+  simp only [doAdd]; split
+  · exact .inl rfl
+  · exact .inr rfl
+
+theorem doAdd_loading (s : Sys K) (t : Transfer) (g : Bool) : (doAdd s t g).1.loading = s.loading := by
+  simp only [doAdd]; split <;> rfl
+
+theorem doAdd_ids_mono (s : Sys K) (t : Transfer) (g : Bool) {i : Ident} (hi : i ∈ s.mgr.transfers.map ident) :
+    i ∈ (doAdd s t g).1.mgr.transfers.map ident := by
+  rcases doAdd_mgr s t g with e | e <;> rw [e]
+  · exact hi
+  · exact add_ids_mono _ _ hi
+
+theorem doAdd_mem_ids (s : Sys K) (t : Transfer) (g : Bool) : ident t ∈ (doAdd s t g).1.mgr.transfers.map ident := by
+  simp only [doAdd]; split
+  · rename_i hl; exact listed_mem hl
+  · exact add_mem_ids _ _
+
+/-- one phase of the loop of `read_cache`: nothing listed is dropped, and every entry the loop was still to
+reach is listed afterwards or still to be reached -/
+theorem loadRun_spec : ∀ (l : List Transfer) (s : Sys K),
+    (∀ i ∈ s.mgr.transfers.map ident, i ∈ (loadRun s l).1.mgr.transfers.map ident) ∧
+    (∀ i ∈ l.map ident, i ∈ (loadRun s l).1.mgr.transfers.map ident ∨
+        ∃ rem, (loadRun s l).1.loading = some rem ∧ i ∈ rem.map ident)
+  | [], _ => ⟨fun _ hi => hi, fun _ hi => nomatch hi⟩
+  | x :: rest, s => by
+    unfold loadRun
+    split
+    · rename_i hl
+      obtain ⟨m, c⟩ := loadRun_spec rest s
+      refine ⟨m, ?_⟩
+      intro i hi
+      rw [List.map_cons, List.mem_cons] at hi
+      rcases hi with rfl | hi
+      · exact .inl (m _ (listed_mem hl))
+      · exact c i hi
+    · refine ⟨fun i hi => doAdd_ids_mono s _ false hi, ?_⟩
+      intro i hi
+      rw [List.map_cons, List.mem_cons] at hi
+      rcases hi with rfl | hi
+      · exact .inl (ident_repair x ▸ doAdd_mem_ids s (repair x).1 false)
+      · exact .inr ⟨rest, rfl, hi⟩
+
+/-- what a phase of the loop registers is the repaired image of an entry it was to reach -/
+theorem loadRun_registers : ∀ (l : List Transfer) (s : Sys K) (t : Transfer), t ∈ (loadRun s l).1.mgr.transfers →
+    t ∈ s.mgr.transfers ∨ ∃ x ∈ l, t = attach s.mgr.id (repair x).1
+  | [], _, _, h => .inl h
+  | x :: rest, s, t, h => by
+    unfold loadRun at h
+    split at h
+    · rcases loadRun_registers rest s t h with h | ⟨y, hy, e⟩
+      · exact .inl h
+      · exact .inr ⟨y, List.mem_cons_of_mem _ hy, e⟩
+    · rcases doAdd_mgr s (repair x).1 false with e | e
+      · exact .inl (by simpa [e] using h)
+      · have h' : t ∈ (s.mgr.add (repair x).1).transfers := by simpa [e] using h
+        rcases mem_add h' with h1 | h1
+        · exact .inl h1
+        · exact .inr ⟨x, List.mem_cons_self, h1⟩
+
+/-- every identity of `ids` is listed, or `read_cache()` is still running and has yet to reach it -/
+def LoadInv (ids : List Ident) (s : Sys K) : Prop :=
+  ∀ i ∈ ids, i ∈ s.mgr.transfers.map ident ∨ ∃ rem, s.loading = some rem ∧ i ∈ rem.map ident
+
+theorem LoadInv.mono {ids : List Ident} {s s' : Sys K} (h : LoadInv ids s)
+    (hm : ∀ i ∈ s.mgr.transfers.map ident, i ∈ s'.mgr.transfers.map ident) (hl : s'.loading = s.loading) :
+    LoadInv ids s' := by
+  intro i hi
+  rcases h i hi with h1 | ⟨rem, h1, h2⟩
+  · exact .inl (hm i h1)
+  · exact .inr ⟨rem, hl ▸ h1, h2⟩
+
+theorem loadInv_loadRun {ids : List Ident} {s : Sys K} {rest : List Transfer} (h : LoadInv ids s)
+    (hl : s.loading = some rest) : LoadInv ids (loadRun s rest).1 := by
+  intro i hi
+  obtain ⟨m, c⟩ := loadRun_spec rest s
+  rcases h i hi with h1 | ⟨rem, h1, h2⟩
+  · exact .inl (m i h1)
+  · rw [hl] at h1; cases h1; exact c i h2
+
+theorem loadInv_step [DecidableEq K] (H : ByteArray → K) {ids : List Ident} {s : Sys K} (h : LoadInv ids s) (o : Op)
+    (hk : o.keeps = true) : LoadInv ids (step H s o).1 := by
+  cases o with
+  | new => cases hk
+  | restart => cases hk
+  | loadCall order => cases hk
+  | rm id now => cases hk
+  | rmCall id now => cases hk
+  | rmStep id => cases hk
+  | add t => exact h.mono (fun _ hi => doAdd_ids_mono s t false hi) (doAdd_loading s t false)
+  | addCall t => exact h.mono (fun _ hi => doAdd_ids_mono s t true hi) (doAdd_loading s t true)
+  | addRet id =>
+    simp only [step, doAddRet]; split <;> exact h
+  | edit t =>
+    simp only [step, doMut]
+    split
+    · rename_i i _
+      split
+      · rename_i q hq
+        have e : (setAt s.mgr.transfers i
+            { t with user := q.user, path := q.path, dir := q.dir, listeners := q.listeners }).map ident
+              = s.mgr.transfers.map ident := ids_setAt _ i q _ hq rfl
+        exact h.mono (fun j hj => by simpa only [e] using hj) rfl
+      · exact h
+    · exact h
+  | store => exact h
+  | legacy id a o k st => simp only [step, doLegacy]; split <;> exact h
+  | sched _ => exact h
+  | prev t k => exact h
+  | dupKey id => simp only [step, doDupKey]; split <;> exact h
+  | loadStep =>
+    simp only [step, doLoadStep]
+    split
+    · exact h
+    · rename_i rest hl
+      exact loadInv_loadRun h hl
+
+theorem loadInv_run [DecidableEq K] (H : ByteArray → K) {ids : List Ident} : ∀ (ops : List Op) {s : Sys K},
+    LoadInv ids s → (∀ o ∈ ops, o.keeps = true) → LoadInv ids (run H s ops)
+  | [], _, h, _ => h
+  | o :: ops, _, h, hk =>
+    loadInv_run H ops (loadInv_step H h o (hk o List.mem_cons_self)) (fun x hx => hk x (List.mem_cons_of_mem _ hx))
 
 end
 
